@@ -603,17 +603,62 @@ func checkC03(rep *core.Report) {
 		r5.Check(fixed, name+":fixed", gl.Pos(), "fixed-length fields read nothing extra", "no path without a length prefix")
 		r5.Check(oneOctet, name+":short-prefix", gl.Pos(), "length < 255 in one octet", "no path reading a 1-octet length prefix under the 65535 marker")
 		r5.Check(threeOctet, name+":long-prefix", gl.Pos(), "255 then a 2-octet length", "no path reading 255 followed by a 2-octet length")
-		// variable length applies to string and octetArray only
+		// variable length applies to string and octetArray only: the helper's control flow is folded for every abstract
+		// type T and for the template lengths 65535 and 4; a length prefix is read exactly when T is string or
+		// octetArray and the length is 65535 (whatever form the test takes)
 		consts := fieldTypeConsts(rep)
-		tys := 0
-		allInstrs(gl, func(ins ssa.Instruction) {
-			if b, ok := ins.(*ssa.BinOp); ok && b.Op == token.EQL {
-				if c, ok := ssaConstInt(b.Y); ok && (c == consts["String"] || c == consts["OctetArray"]) && typeIs(b.X.Type(), core.ModPath+"/ipfix", "FieldType") {
-					tys++
+		badTypes := ""
+		if len(gl.Params) == 3 && len(consts) > 0 {
+			lenP, typP := gl.Params[1], gl.Params[2]
+			var names []string
+			for n := range consts {
+				names = append(names, n)
+			}
+			sort.Strings(names)
+			for _, n := range names {
+				for _, l := range []int64{65535, 4} {
+					fold := foldedEdgesV(func(v ssa.Value) (int64, bool) {
+						switch v {
+						case ssa.Value(lenP):
+							return l, true
+						case ssa.Value(typP):
+							return consts[n], true
+						}
+						return 0, false
+					})
+					reads := false
+					seen := map[*ssa.BasicBlock]bool{}
+					stack := []*ssa.BasicBlock{gl.Blocks[0]}
+					for len(stack) > 0 {
+						b := stack[len(stack)-1]
+						stack = stack[:len(stack)-1]
+						if seen[b] {
+							continue
+						}
+						seen[b] = true
+						for _, ins := range b.Instrs {
+							if c, ok := ins.(*ssa.Call); ok {
+								if f := c.Common().StaticCallee(); f != nil && core.PkgRel(f) == "reader" {
+									reads = true
+								}
+							}
+						}
+						for si, sc := range b.Succs {
+							if fold(b, si) {
+								stack = append(stack, sc)
+							}
+						}
+					}
+					want := (n == "String" || n == "OctetArray") && l == 65535
+					if reads != want {
+						badTypes += fmt.Sprintf(" %s/%d:prefix=%v", n, l, reads)
+					}
 				}
 			}
-		})
-		r5.Check(tys == 2, name+":types", gl.Pos(), "variable length for string and octetArray", "variable-length handling is not tied to exactly the string and octetArray types")
+		} else {
+			badTypes = " (parameters or type constants not found)"
+		}
+		r5.Check(badTypes == "", name+":types", gl.Pos(), "a length prefix is read exactly for string and octetArray elements of template length 65535", "variable-length handling is not tied to exactly the string and octetArray types with template length 65535:"+badTypes)
 	} else {
 		r5.Undecided("ipfix:getDataLength", token.NoPos, "variable-length helper not found")
 	}
@@ -892,22 +937,48 @@ func checkBothFieldLists(prog *core.Program, rr *core.RuleRun, rel string) {
 // method of the reader that takes an octet count, the control flow is folded for n = 0 (comparisons of n with
 // constants and with a length, which is never negative): no return with a non-nil error may remain reachable.
 func checkReaderAcceptsZero(prog *core.Program, rr *core.RuleRun) {
-	n := 0
-	for _, fn := range prog.RepoFuncs() {
+	isCountMethod := func(fn *ssa.Function) bool {
 		if core.PkgRel(fn) != "reader" || fn.Signature.Recv() == nil || fn.Synthetic != "" || len(fn.Params) != 2 {
-			continue
+			return false
 		}
 		bt, ok := fn.Params[1].Type().Underlying().(*types.Basic)
 		if !ok || bt.Info()&types.IsInteger == 0 {
-			continue
+			return false
 		}
 		res := fn.Signature.Results()
-		if res.Len() == 0 || !types.Identical(res.At(res.Len()-1).Type(), types.Universe.Lookup("error").Type()) {
-			continue
+		return res.Len() > 0 && types.Identical(res.At(res.Len()-1).Type(), types.Universe.Lookup("error").Type())
+	}
+	memo := map[*ssa.Function]token.Pos{}
+	busy := map[*ssa.Function]bool{}
+	// failing returns reachable for n = 0 (NoPos if none)
+	var failsOnZero func(fn *ssa.Function) token.Pos
+	failsOnZero = func(fn *ssa.Function) token.Pos {
+		if p, ok := memo[fn]; ok {
+			return p
 		}
-		n++
+		if busy[fn] {
+			return fn.Pos()
+		}
+		busy[fn] = true
+		defer func() { busy[fn] = false }()
 		param := fn.Params[1]
 		fold := foldedEdges(func(v ssa.Value) bool { return v == ssa.Value(param) }, 0)
+		// the error result of a sibling called with the same count is nil when that sibling serves zero octets
+		nilErr := func(v ssa.Value) bool {
+			ex, ok := v.(*ssa.Extract)
+			if !ok {
+				return false
+			}
+			call, ok := ex.Tuple.(*ssa.Call)
+			if !ok {
+				return false
+			}
+			g := call.Common().StaticCallee()
+			if g == nil || !isCountMethod(g) || len(call.Common().Args) != 2 || call.Common().Args[1] != ssa.Value(param) || ex.Index != g.Signature.Results().Len()-1 {
+				return false
+			}
+			return failsOnZero(g) == token.NoPos
+		}
 		seen := map[*ssa.BasicBlock]bool{}
 		stack := []*ssa.BasicBlock{fn.Blocks[0]}
 		bad := token.NoPos
@@ -920,16 +991,40 @@ func checkReaderAcceptsZero(prog *core.Program, rr *core.RuleRun) {
 			seen[b] = true
 			if r, ok := b.Instrs[len(b.Instrs)-1].(*ssa.Return); ok && len(r.Results) > 0 {
 				ev := r.Results[len(r.Results)-1]
-				if c, isC := ev.(*ssa.Const); !isC || !c.IsNil() {
+				if c, isC := ev.(*ssa.Const); (!isC || !c.IsNil()) && !nilErr(ev) {
 					bad = r.Pos()
 				}
 			}
-			for si, s := range b.Succs {
-				if fold(b, si) {
-					stack = append(stack, s)
+			for si, sc := range b.Succs {
+				if !fold(b, si) {
+					continue
 				}
+				if cond, truth, ok := core.IfEdge(b, si); ok {
+					if bo, isB := cond.(*ssa.BinOp); isB && (bo.Op == token.NEQ || bo.Op == token.EQL) {
+						x, y := bo.X, bo.Y
+						if c, isC := x.(*ssa.Const); isC && c.IsNil() {
+							x, y = y, x
+						}
+						if c, isC := y.(*ssa.Const); isC && c.IsNil() && nilErr(x) {
+							if (bo.Op == token.EQL) != truth {
+								continue
+							}
+						}
+					}
+				}
+				stack = append(stack, sc)
 			}
 		}
+		memo[fn] = bad
+		return bad
+	}
+	n := 0
+	for _, fn := range prog.RepoFuncs() {
+		if !isCountMethod(fn) {
+			continue
+		}
+		n++
+		bad := failsOnZero(fn)
 		rr.Check(bad == token.NoPos, core.FuncName(fn)+":accepts-zero", fn.Pos(), "a request for 0 octets cannot fail",
 			"a request for 0 octets can return an error ("+prog.Pos(bad)+"): an empty variable-length value or a zero-length element, both well-formed, makes the reader fail, which the decoders treat as a truncated datagram and drop the whole message")
 	}
